@@ -24,7 +24,7 @@ def outPath (p : P) : Sexp := .list (p.map ofBytes)
 
 def outSnap (fs : FS) : Sexp :=
   .list ((sortBy (fun a b => ltPath a.1 b.1) fs).map fun (p, k) =>
-    .list [outPath p, sym (match k with | .dir => "d" | .file => "f")])
+    .list [outPath p, sym (match k with | .dir => "d" | .file => "f" | .flink => "lf" | .dlink => "ld")])
 
 def path? : Sexp → Option P
   | .list xs => xs.mapM bytes?
@@ -33,6 +33,8 @@ def path? : Sexp → Option P
 def entry? : Sexp → Option (P × Kind)
   | .list [p, .atom "d"] => (path? p).map (·, .dir)
   | .list [p, .atom "f"] => (path? p).map (·, .file)
+  | .list [p, .atom "lf"] => (path? p).map (·, .flink)
+  | .list [p, .atom "ld"] => (path? p).map (·, .dlink)
   | _ => none
 
 def step? : Sexp → Option Step
@@ -44,6 +46,12 @@ def step? : Sexp → Option Step
   | .list [.atom "doer"] => some (.doer none)
   | .list [.atom "doer", t] => (bool? t).map fun b => .doer (some b)
   | .list [.atom "exists"] => some .exists
+  | .list [.atom "set", .atom "name", v] => (bytes? v).map .setName
+  | .list [.atom "set", .atom "base", v] => (bytes? v).map .setBase
+  | .list [.atom "set", .atom "filed", v] => (bool? v).map .setFiled
+  | .list [.atom "set", .atom "extensioned", v] => (bool? v).map .setExt
+  | .list [.atom "remake", nm, bs, t, cl, f, e] => do
+    some (.remake (← bytes? nm) (← bytes? bs) (← bool? t) (← bool? cl) (← bool? f) (← bool? e))
   | _ => none
 
 def outStage (s : St) (r : Except Exn Unit) : Sexp :=
@@ -58,29 +66,34 @@ def runSteps (c : Cfg) (s : St) : List Step → List Sexp
   | [] => []
   | st :: rest =>
     let (s', r) := step c s st
-    match r with
-    | .ok _ => outStage s' r :: runSteps c s' rest
-    | .error _ => [outStage s' r]
+    -- a caller may catch the exception and go on: the history continues from the state the failed call left
+    outStage s' r :: runSteps c s' rest
+
+/-- the requested head (parameter, or the class default when the parameter is None) and the alternative head, resolved -/
+def heads? (hparam hcls halt home cwd : Sexp) : Option (P × P) := do
+  let param ← (match hparam with | .atom "-" => some none | x => (bytes? x).map some)
+  let hcls ← bytes? hcls
+  let halt ← bytes? halt
+  let home ← path? home
+  let cwd ← path? cwd
+  some (resolveHead home cwd (chooseHead param hcls), resolveHead home cwd halt)
 
 /-- the state when the step list stops (at its end or at the first exception) -/
 def endState (c : Cfg) (s : St) : List Step → St
   | [] => s
   | st :: rest =>
-    let (s', r) := step c s st
-    match r with
-    | .ok _ => endState c s' rest
-    | .error _ => s'
+    endState c (step c s st).1 rest
 
 def handle : Sexp → Sexp
-  | .list [.atom "filer", name, base, temp, clean, filed, ext, fext, head, temph, .list init, .list steps, entry] =>
+  | .list [.atom "filer", name, base, temp, clean, filed, ext, fext, .list [hparam, hcls, halt, home, cwd], temph, .list init, .list steps, entry] =>
     let badN := (match name with | .atom "-" => true | _ => false)
     let badB := (match base with | .atom "-" => true | _ => false)
     let name := (match name with | .atom "-" => .atom "#" | x => x)
     let base := (match base with | .atom "-" => .atom "#" | x => x)
-    match bytes? name, bytes? base, bool? temp, bool? clean, bool? filed, bool? ext, bytes? fext, path? head, path? temph,
+    match bytes? name, bytes? base, bool? temp, bool? clean, bool? filed, bool? ext, bytes? fext, heads? hparam hcls halt home cwd, path? temph,
         init.mapM entry?, steps.mapM step? with
-    | some name, some base, some temp, some clean, some filed, some ext, some fext, some head, some temph, some init, some steps =>
-      let c : Cfg := ⟨name, base, fext, temp, filed, ext, head, temph, badN, badB⟩
+    | some name, some base, some temp, some clean, some filed, some ext, some fext, some (head, alt), some temph, some init, some steps =>
+      let c : Cfg := ⟨name, base, fext, temp, filed, ext, head, temph, alt, badN, badB⟩
       let s0 : St := fresh c init
       let (s1, r) := construct c s0 clean
       match r with
